@@ -24,10 +24,20 @@ HEAD = (f'<xs:schema xmlns:xs="{XSD}" targetNamespace="{TNS}" xmlns:t="{TNS}" '
         'elementFormDefault="qualified">\n'
         '<xs:element name="a" type="xs:string"/><xs:element name="b" type="xs:string"/>'
         '<xs:element name="c" type="xs:string"/><xs:element name="h" type="xs:string"/>'
-        '<xs:element name="s" type="xs:string" substitutionGroup="t:h"/>\n')
+        '<xs:element name="s" type="xs:string" substitutionGroup="t:h"/>'
+        '<xs:element name="q" type="xs:string" substitutionGroup="t:h" abstract="true"/>'
+        '<xs:element name="d" type="xs:string" substitutionGroup="t:q"/>\n')
+
+# declared substitution closure of the head `h`: s (direct), d (through the abstract member q); q itself is
+# abstract and can never appear in an instance
+SUBST = {'h': ['s', 'd']}
+# the XSD 1.1 processor keeps the abstract member in the substitution group (it matches at model level
+# and is refused at element level: "can't use an abstract element in an instance")
+SUBST11_EXTRA = {'h': ['q']}
 
 # symbols of instance words -> (namespace, local)
-SYMS = {'a': (TNS, 'a'), 'b': (TNS, 'b'), 'c': (TNS, 'c'), 'h': (TNS, 'h'), 's': (TNS, 's'), 'o': (ONS, 'z')}
+SYMS = {'a': (TNS, 'a'), 'b': (TNS, 'b'), 'c': (TNS, 'c'), 'h': (TNS, 'h'), 's': (TNS, 's'), 'd': (TNS, 'd'),
+        'q': (TNS, 'q'), 'o': (ONS, 'z')}
 
 OCC_SMALL = [(1, 1), (0, 1), (0, None), (1, None), (2, 2), (1, 2), (0, 0)]
 
@@ -41,13 +51,43 @@ def occ_attrs(lo: int, hi: Optional[int]) -> str:
     return s
 
 
-def to_xsd(ast: tuple) -> str:
+def to_xsd(ast: tuple, defs: Optional[list] = None, shared: Optional[dict] = None) -> str:
+    """`defs` collects global <xs:group> definitions for nodes marked as references
+    (('g', kind, lo, hi, items, 'ref')); equal referenced groups share one definition (`shared`)."""
     t = ast[0]
     if t == 'e':
         return f'<xs:element ref="t:{ast[1]}"{occ_attrs(ast[2], ast[3])}/>'
     if t == 'a':
         return f'<xs:any namespace="{ast[1]}" processContents="lax"{occ_attrs(ast[2], ast[3])}/>'
-    return (f'<xs:{ast[1]}{occ_attrs(ast[2], ast[3])}>' + ''.join(to_xsd(i) for i in ast[4]) + f'</xs:{ast[1]}>')
+    if len(ast) > 5 and ast[5] == 'ref' and defs is not None:
+        inner = f'<xs:{ast[1]}>' + ''.join(to_xsd(i, defs, shared) for i in ast[4]) + f'</xs:{ast[1]}>'
+        key = inner
+        if shared is not None and key in shared:
+            name = shared[key]
+        else:
+            name = f'G{len(defs)}_{id(defs) % 100000}'
+            defs.append(f'<xs:group name="{name}">{inner}</xs:group>')
+            if shared is not None:
+                shared[key] = name
+        return f'<xs:group ref="t:{name}"{occ_attrs(ast[2], ast[3])}/>'
+    return (f'<xs:{ast[1]}{occ_attrs(ast[2], ast[3])}>' + ''.join(to_xsd(i, defs, shared) for i in ast[4])
+            + f'</xs:{ast[1]}>')
+
+
+def strip_refs(ast: tuple) -> tuple:
+    if ast[0] != 'g':
+        return ast
+    return ('g', ast[1], ast[2], ast[3], [strip_refs(i) for i in ast[4]])
+
+
+def with_refs(rng, ast: tuple, p: float = 0.5, top: bool = True) -> tuple:
+    """marks some nested sequence/choice groups as references to global named groups"""
+    if ast[0] != 'g':
+        return ast
+    items = [with_refs(rng, i, p, False) for i in ast[4]]
+    if not top and ast[1] != 'all' and rng.random() < p:
+        return ('g', ast[1], ast[2], ast[3], items, 'ref')
+    return ('g', ast[1], ast[2], ast[3], items)
 
 
 def show(ast: tuple) -> str:
@@ -67,7 +107,8 @@ def show(ast: tuple) -> str:
     if t == 'a':
         return 'any[%s]' % ast[1] + occ(ast[2], ast[3])
     sep = {'sequence': ',', 'choice': '|', 'all': '&'}[ast[1]]
-    return '(' + sep.join(show(i) for i in ast[4]) + ')' + occ(ast[2], ast[3])
+    ref = '@' if len(ast) > 5 else ''
+    return ref + '(' + sep.join(show(i) for i in ast[4]) + ')' + occ(ast[2], ast[3])
 
 
 def leaves(ast: tuple) -> list[tuple]:
@@ -80,7 +121,7 @@ def alphabet(ast: tuple) -> list[str]:
     out = []
     for l in leaves(ast):
         if l[0] == 'e':
-            for s in ([l[1], 's'] if l[1] == 'h' else [l[1]]):
+            for s in ([l[1]] + SUBST.get(l[1], [])):
                 if s not in out:
                     out.append(s)
         else:
@@ -92,7 +133,7 @@ def alphabet(ast: tuple) -> list[str]:
 
 def leaf_matches(leaf: tuple, sym: str) -> bool:
     if leaf[0] == 'e':
-        return sym == leaf[1] or (leaf[1] == 'h' and sym == 's')
+        return sym == leaf[1] or sym in SUBST.get(leaf[1], [])
     ns = SYMS[sym][0]
     if leaf[1] == '##any':
         return True
@@ -389,9 +430,10 @@ def build_schema(models: list[tuple], v11: bool, extra: str = '', oc: Optional[t
     if oc is not None:
         octxt = (f'<xs:openContent mode="{oc[0]}"><xs:any namespace="{oc[1]}" processContents="lax"/>'
                  '</xs:openContent>')
+    defs: list = []
     for k, m in enumerate(models):
-        body.append(f'<xs:element name="m{k}"><xs:complexType>{octxt}{to_xsd(m)}</xs:complexType></xs:element>')
-    return cls(HEAD + '\n'.join(body) + '</xs:schema>', validation='lax')
+        body.append(f'<xs:element name="m{k}"><xs:complexType>{octxt}{to_xsd(m, defs, {})}</xs:complexType></xs:element>')
+    return cls(HEAD + '\n'.join(defs + body) + '</xs:schema>', validation='lax')
 
 
 def ref_accepts_oc(ast: tuple, word: list[str], oc: tuple) -> bool:
@@ -422,9 +464,11 @@ class Introspector:
     """Serialises a built XsdGroup (what the schema parser actually produced)."""
 
     def __init__(self, group: Any):
+        self.v11 = group.xsd_version != '1.0'
         self.ids: dict[int, int] = {}
         self.objs: list[Any] = []
         self.root = group
+        self.glue: list[dict] = []
         self.json = self.walk(group)
 
     def oid(self, obj: Any) -> int:
@@ -448,8 +492,13 @@ class Introspector:
             for e in getattr(p, 'precedences', {}).get(self.root, []):
                 prec.append(self.oid(e))
             return {'t': 'a', 'id': pid, 'lo': p.min_occurs, 'hi': hi, 'w': w, 'prec': prec}
-        names = [split_qname(p.name)] + sorted(split_qname(n) for n in (p.substitutes or ()))
-        return {'t': 'e', 'id': pid, 'lo': p.min_occurs, 'hi': hi, 'names': names}
+        built = sorted(split_qname(n) for n in (p.substitutes or ()))
+        own = split_qname(p.name)
+        declared = sorted([own[0], x] for x in SUBST.get(own[1], []) + (SUBST11_EXTRA.get(own[1], []) if self.v11 else []))
+        if built != declared:
+            self.glue.append({'element': own, 'substitutes_built': built, 'substitutes_declared': declared})
+        # O and M are given the *declared* substitution closure, not what the implementation computed
+        return {'t': 'e', 'id': pid, 'lo': p.min_occurs, 'hi': hi, 'names': [own] + declared}
 
 
 def ast_of_json(j: dict) -> tuple:
